@@ -72,6 +72,7 @@ CH_AXES = {
     "alpha": ["scalar", "dict"],
     "noise": ["none", "scalar", "dict"],
     "det": ["grid", "image"],
+    "shape": [[3, 4], [1, 4], [4, 1], [1, 1]],
     "ord_wl": list(range(6)), "ord_pol": list(range(6)),
     "ord_n": list(range(6)), "ord_r": list(range(6)),
     "ord_alpha": list(range(6)),
@@ -282,8 +283,15 @@ def _run_ch(case, ck):
     alpha = _mk_param(v["alpha"], ALPHA, labels, v["ord_alpha"])
     center = (0.17, 0.21, 5.0)
     scat = Sphere(n=n, r=r, center=center)
-    shape, spacing = (3, 4), 0.1
-    det = H.det_grid(shape, spacing, extra_dims={"illumination": labels})
+    shape, spacing = tuple(v["shape"]), 0.1
+    try:
+        det = H.det_grid(shape, spacing,
+                         extra_dims={"illumination": labels})
+    except Exception as e:
+        ck.true("multichannel-accepted", False, "a %dx%d detector with an "
+                "illumination axis cannot be built: %s: %s" %
+                (shape + (type(e).__name__, e)))
+        return "exc:" + type(e).__name__
     if v["det"] == "image":
         det = det + 1.0        # an "image": same grid with data values
         det.name = "img"
